@@ -55,7 +55,7 @@ def served_bound(ready, backend):
 class Prop:
     id = "C09"
     lean_module = "MuduoVerif.Props.C09"
-    gen_engines = ["Poller", "PollerSkel", "SysSkel"]
+    gen_engines = ["Poller", "PollerSkel", "SysSkel", "LoopSkel"]
     drivers = ["poller"]
     technique = ("Lean 4 invariant/refinement proofs over a model of Channel + PollPoller + EPollPoller + the loop's dispatch; "
                  "T1 extraction of every guard/mask/constant and of the statement skeleton of the 17 modelled functions; differential run vs. a real EventLoop under both back-ends with "
@@ -119,6 +119,7 @@ class Prop:
         "(statement_order_tied)",
         "vlib/gen/sysskel.py (clang-14 JSON AST -> Generated/SysSkel.lean: statement skeletons of every function of SocketsOps.cc, Socket.cc/.h, InetAddress.cc/.h, Endian.h, Poller.cc, poller/DefaultPoller.cc, the poller constructors/destructors, Channel::tie, createEventfd, createTimerfd; what it leaves out is listed in the generated header) and the reading Model/SysSkelDecl.lean of what the "
         "models assume of each primitive (one system call, arguments passed through, result returned unchanged, failures only logged - or exactly the declared extra work); C09 depends on default_poller_choice (newDefaultPoller: MUDUO_USE_POLL set => PollPoller, else EPollPoller; the poller constructors/destructors, Poller::hasChannel, Channel::tie) and loop_descriptors_nonblocking (createEventfd, createTimerfd); still trusted: the kernel's / glibc's behaviour behind each system call",
+        "vlib/gen/loopskel.py (clang-14 JSON AST -> Generated/LoopSkel.lean: statement skeletons of every function of EventLoop.cc, EventLoopThread.cc, EventLoopThreadPool.cc, Acceptor.cc and Channel::Channel / ~Channel; what it leaves out is listed in the generated header) and the reading Model/LoopSkelDecl.lean; C09 depends on channel_lifecycle_statement_order_tied (EventLoop constructor / destructor around the wake-up channel, Channel constructor / destructor, the updateChannel / removeChannel / hasChannel forwarders)",
         "hand-written Model/Poller.lean (control flow between the extracted guards), tied by the differential run",
         "harness/poller_drv.cc, harness/loopstep.h (link-level interposition of poll, epoll_wait, epoll_ctl, eventfd, write)",
         "Linux: epoll_ctl fails with EEXIST/ENOENT exactly on present/absent descriptors; poll ignores negative fds; "
